@@ -260,11 +260,25 @@ class Executor(object):
             ax = (ti + fi + bi) % 3
             for d in (1e-8, 1e-9):
                 tw = [tuple(c + (d if i == ax else 0.0) for i, c in enumerate(q)) for q in base]
+                if cat["kind"] == "PLG":
+                    # a general-form plane is translated by changing its offset only: adding d to a coefficient
+                    # would tilt an unbounded set (whose support point the constructor may then place 1/d away),
+                    # which is not "the same object d apart"
+                    tw = [base[0], (base[1][0] + d, 0.0, 0.0)]
                 b = self.guard("constructor", lambda: construct(cat["kind"], tw))
                 self.guard("hash", lambda: hash(b))
                 twins.append((d, b))
             if len(self.kept) < 6:
                 self.kept.append((cat["kind"], base, o, G.get_eps(), twins))
+        elif name == "keep_coarsen_recheck":
+            # constructed: an object built and used under the configuration in force, the tolerance then coarsened by
+            # at least three decades where the range allows, and exactly that object re-examined at once (defining
+            # point and axis chosen by the step) - a value frozen at construction time has no other way to show
+            if len(self.kept) < 6:
+                self.apply(("keep", step[1], step[2], step[3]))
+                idx = len(self.kept) - 1
+                self.apply(("set_eps", 5 + step[4] % 2))
+                self.apply(("recheck", idx, step[5], step[6]))
         elif name == "recheck":
             if self.kept:
                 kind, base, o, eps0, twins = self.kept[step[1] % len(self.kept)]
@@ -286,25 +300,28 @@ class Executor(object):
                     raise Fail("a %s created under another eps is not equal to an identical fresh object" % kind, {"eps0": eps0, "eps": eps}, self.facts)
                 if self.guard("hash", lambda: hash(o)) != self.guard("hash", lambda: hash(fresh)):
                     raise Fail("a %s created under another eps hashes unlike an identical fresh object" % kind, {"eps0": eps0, "eps": eps}, self.facts)
-                moved = [list(q) for q in base]
-                moved[step[2] % len(moved)][step[3] % 3] += eps / 1000.0
-                b = self.guard("constructor", lambda: construct(kind, [tuple(q) for q in moved]))
-                if self.guard("==", lambda: o == b) is not True or self.guard("==", lambda: b == o) is not True:
-                    raise Fail("a %s created under another eps is not equal to a twin eps/1000 apart" % kind, {"eps0": eps0, "eps": eps}, self.facts)
-                if self.guard("hash", lambda: hash(o)) != self.guard("hash", lambda: hash(b)):
-                    raise Fail("a %s created under another eps hashes unlike a twin eps/1000 apart" % kind, {"eps0": eps0, "eps": eps}, self.facts)
-                if kind not in ("V", "P", "PLG"):
-                    # ... and they contain each other's defining points (the kept one was built under another eps)
-                    for q in defining_points(kind, [tuple(x) for x in moved]):
-                        if self.guard("in", lambda: G.Point(*q) in o) is not True:
-                            raise Fail("a %s created under another eps does not contain a defining point of its eps/1000 twin" % kind, {"eps0": eps0, "eps": eps, "point": q}, self.facts)
-                    for q in defining_points(kind, base):
-                        if self.guard("in", lambda: G.Point(*q) in b) is not True:
-                            raise Fail("the eps/1000 twin of a %s created under another eps does not contain its defining point" % kind, {"eps0": eps0, "eps": eps, "point": q}, self.facts)
-                if kind != "V":
-                    r = self.guard("intersection", lambda: G.intersection(o, b))
-                    if type(r) is not type(o) or self.guard("==", lambda: r == fresh) is not True:
-                        raise Fail("intersection of a kept %s with its eps/1000 twin is not the coincident object" % kind, {"eps0": eps0, "eps": eps}, self.facts)
+                # the twin lies eps/1000 away on either side (a half-line's twin starts just before or just behind
+                # the kept one's start point)
+                for sgn in (1.0, -1.0):
+                    moved = [list(q) for q in base]
+                    moved[step[2] % len(moved)][step[3] % 3] += sgn * eps / 1000.0
+                    b = self.guard("constructor", lambda: construct(kind, [tuple(q) for q in moved]))
+                    if self.guard("==", lambda: o == b) is not True or self.guard("==", lambda: b == o) is not True:
+                        raise Fail("a %s created under another eps is not equal to a twin eps/1000 apart" % kind, {"eps0": eps0, "eps": eps}, self.facts)
+                    if self.guard("hash", lambda: hash(o)) != self.guard("hash", lambda: hash(b)):
+                        raise Fail("a %s created under another eps hashes unlike a twin eps/1000 apart" % kind, {"eps0": eps0, "eps": eps}, self.facts)
+                    if kind not in ("V", "P", "PLG"):
+                        # ... and they contain each other's defining points (the kept one was built under another eps)
+                        for q in defining_points(kind, [tuple(x) for x in moved]):
+                            if self.guard("in", lambda: G.Point(*q) in o) is not True:
+                                raise Fail("a %s created under another eps does not contain a defining point of its eps/1000 twin" % kind, {"eps0": eps0, "eps": eps, "point": q}, self.facts)
+                        for q in defining_points(kind, base):
+                            if self.guard("in", lambda: G.Point(*q) in b) is not True:
+                                raise Fail("the eps/1000 twin of a %s created under another eps does not contain its defining point" % kind, {"eps0": eps0, "eps": eps, "point": q}, self.facts)
+                    if kind != "V":
+                        r = self.guard("intersection", lambda: G.intersection(o, b))
+                        if type(r) is not type(o) or self.guard("==", lambda: r == fresh) is not True:
+                            raise Fail("intersection of a kept %s with its eps/1000 twin is not the coincident object" % kind, {"eps0": eps0, "eps": eps}, self.facts)
         elif name == "degenerate":
             # two defining points eps/1000 apart are the same point under the current eps: the zero-length object
             # must be rejected under every configuration, not only under the default one
@@ -518,7 +535,9 @@ def account(case, ctx):
         elif name == "restore":
             if stack:
                 cur = stack.pop()
-        elif name in ("probe", "reprobe", "recheck", "degenerate", "dupvertex", "bigpoly", "cycle"):
+        elif name in ("probe", "reprobe", "recheck", "degenerate", "dupvertex", "bigpoly", "cycle", "keep_coarsen_recheck"):
+            if name == "keep_coarsen_recheck":
+                cur = 5 + s[4] % 2
             npr += 1
             if cur != 10:
                 nondefault = True
@@ -603,6 +622,7 @@ def machine(ctx):
         "movekept": (st.integers(0, 5), st.integers(0, 2)),
         "cycle": (st.integers(0, 6), st.integers(0, len(FRAMES) - 1), st.integers(0, len(BASES) - 1), st.sampled_from(KS), st.integers(0, 5)),
         "recheck": (st.integers(0, 5), st.integers(0, 7), st.integers(0, 2)),
+        "keep_coarsen_recheck": (st.integers(0, len(TYPES) - 1), st.integers(0, len(FRAMES) - 1), st.integers(0, len(BASES) - 1), st.integers(0, 1), st.integers(0, 7), st.integers(0, 2)),
         "recheck2": (st.integers(0, 5), st.integers(0, 7), st.integers(0, 2)),
     }
     init = st.tuples(st.just("CFG"), st.sampled_from(KS + (None,)), st.booleans())
